@@ -1,7 +1,8 @@
 (* Properties/C17.v — attribute container, JSON storage form, merge_attributes, equality.
    Statements only; every proof is `exact`. *)
 From GV Require Import Base.Prelude Base.PyStr Model.Bins Model.DB Model.Parser Model.Import Model.Attrs Model.Container
-  Model.Json Proofs.C05Proofs Proofs.C17Proofs Proofs.JsonProofs Proofs.SortedStrs.
+  Model.Json Proofs.C05Proofs Proofs.C17Proofs Proofs.JsonProofs Proofs.SortedStrs Proofs.C17Numeric.
+From Coq Require Import Sorting.Permutation Sorting.Sorted.
 Open Scope Z_scope.
 
 (* however a value is set, a sequence is stored: a scalar becomes a one-item list, lists/tuples are kept *)
@@ -82,6 +83,19 @@ Theorem C17_merge_values_ascending : forall a1 a2 m, merge_attributes false a1 a
   forall k vs, In (k, vs) m -> ascending vs.
 Proof. exact l_merge_values_ascending. Qed.
 Print Assumptions C17_merge_values_ascending.
+
+(* numeric_sort=True: a key all of whose (distinct) values are decimals - [classify], the modelled part of float(): up to
+   15 digits with an optional sign and fraction - comes out as exactly those values in non-decreasing NUMERIC order
+   ([dec_le]: m1 * 10^-k1 <= m2 * 10^-k2), every earlier value <= every later one *)
+Theorem C17_numeric_values_sorted : forall vs l out, all_dec (as_set vs) = Some l -> sort_values true vs = Ok out ->
+  Permutation out (as_set vs) /\ StronglySorted dec_le out.
+Proof. exact l_numeric_sorted. Qed.
+Print Assumptions C17_numeric_values_sorted.
+
+Theorem C17_merge_numeric_ascending : forall a1 a2 m k vs, merge_attributes true a1 a2 = Ok m -> In (k, vs) m ->
+  (forall v, In v vs -> exists n d, classify v = Dec n d) -> StronglySorted dec_le vs.
+Proof. exact l_merge_numeric_ascending. Qed.
+Print Assumptions C17_merge_numeric_ascending.
 
 (* two Features compare equal exactly when their printed lines are equal; equal Features hash alike *)
 Theorem C17_eq_iff_print : forall tq f g, feature_eq tq f g = true <-> feature_str tq f = feature_str tq g.
